@@ -216,6 +216,9 @@ BOUNDED = {
              'bound': '62 token sequences covering every keyword and bracket of the expression language, each laid out with 16 separators (runs of spaces, tab, LF, CR LF, no-break / em / ideographic space, line and paragraph separator, '
                       'vertical tab, block comments with and without white space around them, line comments) in every gap at once, in each single gap, in front and behind: 6 359 parses, each equal to the tree of the single-space layout; '
                       'U+1680, U+180E, U+FEFF (white space AND name characters in the FEEL grammar) are left out, and a comment is not glued to a name that is not bound in the parsing scope'},
+            {'name': 'a-comment-ends-a-name', 'driver': 'feelcases', 'args': ['/verif/replay/cases/C06_comments_after_names.txt', 'all'],
+             'functions': ['Lexer::consume_name (the scan of the longest possible name)', 'Lexer::comment_length'],
+             'bound': '8 expressions with a comment directly behind a name that is being introduced (the variable of for / some / every, a context key, a formal parameter), with and without white space around it'},
             {'name': 'a-type-position-ends-with-the-type', 'driver': 'feelcases', 'args': ['/verif/replay/cases/C06_type_position.txt', 'all'],
              'functions': ['Lexer::consume_name (type_name flag)', 'Parser::action_type_name'],
              'bound': '11 expressions in which a type (built-in, a name that is not a built-in type, list<>, range<>, context<>, function<>) after `instance of` or in a formal parameter is followed by an expression that '
